@@ -1160,7 +1160,8 @@ impl<'de, 'e> de::Deserializer<'de> for YamlDeserializer<'de, 'e> {
                 }
                 let is_plain = matches!(style, ScalarStyle::Plain);
                 // Treat all YAML null-like scalars (null, ~, empty) as null when typeless.
-                if scalar_is_nullish(value, style) {
+                // (a scalar explicitly tagged `!!str` is a string whatever its text)
+                if tag != &SfTag::String && scalar_is_nullish(value, style) {
                     let _ = self.ev.next()?; // consume
                     return visitor.visit_unit();
                 }
@@ -1436,8 +1437,9 @@ impl<'de, 'e> de::Deserializer<'de> for YamlDeserializer<'de, 'e> {
                 value,
                 ..
             }) => {
-                // Check for null - not valid for string deserialization
-                if tag == &SfTag::Null || scalar_is_nullish(value, style) {
+                // Check for null - not valid for string deserialization (`!!str` makes any text a string,
+                // as in `deserialize_string`)
+                if (tag == &SfTag::Null || scalar_is_nullish(value, style)) && tag != &SfTag::String {
                     let loc = *location;
                     let _ = self.ev.next()?;
                     return Err(Error::NullIntoString { location: loc });
@@ -1638,10 +1640,13 @@ impl<'de, 'e> de::Deserializer<'de> for YamlDeserializer<'de, 'e> {
                 visitor.visit_none()
             }
 
-            // YAML null forms as scalars → None
+            // YAML null forms as scalars → None (`!!str` makes any text a string)
             Some(Ev::Scalar {
-                value: s, style, ..
-            }) if scalar_is_nullish_for_option(s, style) => {
+                value: s,
+                style,
+                tag,
+                ..
+            }) if tag != &SfTag::String && scalar_is_nullish_for_option(s, style) => {
                 let _ = self.ev.next()?; // consume the scalar
                 visitor.visit_none()
             }
